@@ -201,8 +201,9 @@ def _fwd_vc(ctx, kind, P, algo):
         outs = list(ll.sent) + [t.args[1] for t in timers_real if t.started]
         msgs = []
         own_v = frame[so_off + 2: so_off + 8] == LOCAL_MID
-        if own_v and (got or outs):
-            msgs.append(f"own source address: indications={len(got)} transmissions={len(outs)}")
+        table_updates = [c for c in getattr(R.location_table, "calls", []) if c.startswith("new_")]
+        if own_v and (got or outs or table_updates):
+            msgs.append(f"own source address: indications={len(got)} transmissions={len(outs)} location-table updates={table_updates}")
         if dup_names and (got or outs):
             msgs.append(f"duplicate: indications={len(got)} transmissions={len(outs)}")
         if len(got) > 1 or len(outs) > 1:
